@@ -47,8 +47,31 @@ fn run_multi(toks: &[&str], em: &mut Emitter) {
     });
 }
 
+/// `link_write`: a message handed to `Link::write` itself (no 16-bit limit there);
+/// `tpkt_write_msg`: a structured message (shape language of C18, with skippable and size-dependent
+/// fields) handed to `tpkt::Client::write`
+fn run_other(toks: &[&str], em: &mut Emitter) {
+    let line = toks.join(" ");
+    let t: Vec<String> = toks.iter().map(|s| s.to_string()).collect();
+    em.case(&line, move || {
+        let ws = parse_wsched(&t[2]); let we = parse_werr(&t[2]);
+        let pipe = Pipe::new(vec![], vec![]).with_wsched(ws).with_werr(we);
+        let r = if t[0] == "link_write" {
+            let mut l = Link::new(Stream::Raw(pipe.clone()));
+            l.write(&parse_payload(&t[1])).is_ok()
+        } else {
+            let m = crate::shape::build(&crate::shape::parse(&t[1]).unwrap());
+            let mut tp = tpkt::Client::new(Link::new(Stream::Raw(pipe.clone())));
+            let tr: rdp::model::data::Trame = vec![m];
+            tp.write(tr).is_ok()
+        };
+        Obs::new(format!("{} {}", if r { "ok" } else { "E" }, show_out(&pipe.written()))).nt(r)
+    });
+}
+
 pub fn run_case(toks: &[&str], em: &mut Emitter) {
     if toks[0] == "tpkt_writes" { return run_multi(toks, em); }
+    if toks[0] == "link_write" || toks[0] == "tpkt_write_msg" { return run_other(toks, em); }
     let line = toks.join(" ");
     let op = toks[0].to_string();
     let payload = parse_payload(toks[1]);
@@ -136,6 +159,19 @@ pub fn generate(thorough: bool, seed: u64, part: (usize, usize), em: &mut Emitte
             emit(em, "tpkt_write", "pat:9:4", &v.join(","));
             emit(em, "tpkt_writes", "pat:9:4/pat:3:5", &v.join(","));
         } } }
+    }
+    if part.0 == 0 {
+        // Link::write itself: no frame limit, every byte of any message must arrive
+        for &len in &[0usize, 1, 1500, 65535, 65536, 65537, 70000, 131072, 200000] { for w in &["-", "7,7,7,7,7,7,7,7", "65536,65536,65536,65536", "4096,0,100"] {
+            emit(em, "link_write", &format!("pat:{}:6", len), w);
+        } }
+        // structured messages (records with size-dependent and skippable fields) through tpkt::write
+        for _ in 0..(if thorough { 3000 } else { 300 }) {
+            let depth = r.range(0, 3) as u32;
+            let v = crate::props::c18::gen_value(&mut r, depth);
+            let w = if r.chance(1, 2) { "-".to_string() } else { gen_wsched(&mut r, 20) };
+            emit(em, "tpkt_write_msg", &v, &w);
+        }
     }
     let n = if thorough { 20000 } else { 2000 };
     for _ in 0..n {
